@@ -487,6 +487,11 @@ impl C05 {
                         txn.rx2 = vec![f];
                     }
                 }
+                if r.chance(1, 15) {
+                    // a radio error somewhere in the procedure (often at the transmit request itself): whatever is
+                    // heard afterwards - in the next windows, or while listening in RXC - is judged as always
+                    txn.fault = Some(Fault { pos: *r.pick(&[0u16, 0, 0, 1, 2, 3, 5]), extra: 0 });
+                }
                 ops.push(Op::Send { port: r.range(1, 223) as u8, len: send_len(&mut r), confirmed: r.chance(1, 3), txn });
             }
         }
